@@ -276,7 +276,9 @@ impl MaxFlow for Dinic {
         self.level.resize(number_of_nodes, usize::MAX);
         self.queue.reserve(number_of_nodes);
 
-        let mut flow = 0;
+        // continue from the flow found so far: a second run (or a run after an aborted one) must not
+        // forget what earlier runs already pushed through the residual graph
+        let mut flow = self.max_flow;
         while self.bfs() {
             flow += self.dfs();
             if let Some(bound) = &self.bound {
